@@ -302,10 +302,12 @@ def post_foreign(rnd, tables, std):
     custom = [s for s in old if s not in stdset]
     order = list(custom)
     rnd.shuffle(order)
-    order.insert(rnd.randrange(len(order) + 1), "unused.name")
+    if order:
+        # never last: FreeType only NUL-terminates the names up to the highest referenced index
+        order.insert(rnd.randrange(len(order)), "unused.name")
     pos = {s: i for i, s in enumerate(order)}
     idx = [stdset[s] if s in stdset else 258 + pos[s] for s in old]
-    if any(len(s) > 255 for s in order) or max(idx) > 0xFFFF:
+    if any(len(s) > 255 for s in order) or max(idx) > 0xFFFF or not order:
         return None, "names too long"
     data = struct.pack(">L", 0x00020000) + tables["post"][4:32] + struct.pack(">H", n) + struct.pack(">%dH" % n, *idx)
     for s in order:
